@@ -1,5 +1,6 @@
 import asyncio
 import concurrent.futures
+import itertools
 import logging
 import multiprocessing
 import multiprocessing.queues
@@ -196,6 +197,10 @@ class Server:
         self._uid_to_futures = {}
         # Size of this dict is capped at `self._capacity`.
         # A few places need to enforce this size limit.
+        self._uid_counter = itertools.count(1)
+        # Request IDs must never be reused while any part of the pipeline may still
+        # be working on an older request (e.g. a slow ensemble member after a
+        # fail-fast error), hence a counter rather than `id(fut)`.
 
     def __getstate__(self):
         raise TypeError(f"cannot pickle '{self.__class__.__name__!r}' object")
@@ -308,7 +313,7 @@ class Server:
             't1': t0,  # end of enqueuing, to be updated
             'deadline': t0 + timeout,
         }
-        uid = id(fut)
+        uid = next(self._uid_counter)
 
         with self._pipeline_notfull:
             if len(pipeline) >= self._capacity:
@@ -498,6 +503,10 @@ class AsyncServer:
         self._uid_to_futures = {}
         # Size of this dict is capped at `self._capacity`.
         # A few places need to enforce this size limit.
+        self._uid_counter = itertools.count(1)
+        # Request IDs must never be reused while any part of the pipeline may still
+        # be working on an older request (e.g. a slow ensemble member after a
+        # fail-fast error), hence a counter rather than `id(fut)`.
 
     def __getstate__(self):
         raise TypeError(f"cannot pickle '{self.__class__.__name__!r}' object")
@@ -560,7 +569,7 @@ class AsyncServer:
             't1': t0,  # end of enqueuing; to be updated
             'deadline': t0 + timeout,
         }
-        uid = id(fut)
+        uid = next(self._uid_counter)
 
         async with self._pipeline_notfull:
             if len(pipeline) >= self._capacity:
